@@ -25,12 +25,21 @@ Fixpoint uins {A} (k : Z) (v : A) (l : list (Z * A)) : list (Z * A) :=
 Fixpoint udel {A} (k : Z) (l : list (Z * A)) : list (Z * A) :=
   match l with [] => [] | (k', v') :: r => if k' =? k then r else (k', v') :: udel k r end.
 
-(* the period gate of EndBlocker (uint64 arithmetic) *)
-Definition ubi_due (now : Z) (r : urec) : bool :=
-  (wrap64 (u_last r + u_period r) <? now) && ((u_end r =? 0) || (u_last r <? u_end r)).
+(* the period gate of EndBlocker (uint64 arithmetic).  [gate_exact] says which variant the tree has
+   (decided by a probe in the harness): [false] = `now > last+period` with the sum wrapping around,
+   [true] = the repaired `now >= last && now-last > period`. *)
+Definition ubi_due_gen (gate_exact : bool) (now : Z) (r : urec) : bool :=
+  (if gate_exact then (u_last r <=? now) && (u_period r <? now - u_last r)
+   else wrap64 (u_last r + u_period r) <? now)
+  && ((u_end r =? 0) || (u_last r <? u_end r)).
+Definition ubi_due_wrap := ubi_due_gen false.
 (* the gate the property asks for (exact arithmetic) *)
 Definition ubi_due_exact (now : Z) (r : urec) : bool :=
   (u_last r + u_period r <? now) && ((u_end r =? 0) || (u_last r <? u_end r)).
+
+Section Gate.
+Variable gate_exact : bool.
+Definition ubi_due := ubi_due_gen gate_exact.
 
 Definition ubi_amount (r : urec) : Z := as_int64 (u_amount r) * 1000000.
 Definition touch (now : Z) (r : urec) : urec :=
@@ -110,3 +119,4 @@ Definition ubi_apply (hardcap now : Z) (o : ubi_op) (s : ustate) : outcome (usta
   end.
 Definition ubi_step (hardcap : Z) (s : ustate) (e : Z * ubi_op) : ustate :=
   match ubi_apply hardcap (fst e) (snd e) s with Ok (s', _) => s' | _ => s end.
+End Gate.
